@@ -1,5 +1,6 @@
 import GqlProofs.Lemmas.ArgMapLemmas
 import GqlProofs.Lemmas.VarsFixtures
+import GqlProofs.Lemmas.VarsLemmas
 /-
   C15 — argument resolution is total and ordered literal > variable > default.
 
@@ -122,6 +123,58 @@ theorem C15_precedence_linked (linked opDefs : List VarDef) (defs : List ArgDef)
   have := C15_precedence linked defs args vars m hnodup hargs hdefs hsup' h d hd
   rw [← this]
   simp only [argValueSpec, varDefaultSpec_congr hlinks]
+
+
+/-- C15 for exactly the maps the property speaks of — "every variables map that passed coercion":
+    `vars` IS what `VariableValues` returned for the executed operation (`coerce s op supplied = ok vars`).
+    The hypothesis `DefaultsSupplied` of `C15_precedence` is then a consequence (every declared variable
+    with a default has an entry, holding its COERCED default when the variable was omitted:
+    `C14_defaults`), so nothing is assumed about the map beyond its origin. -/
+theorem C15_precedence_coerced (s : Schema) (op : OperationDef) (supplied vars : VarMap)
+    (defs : List ArgDef) (args : List Argument) (m : VarMap)
+    (hco : coerce s op supplied = .ok vars)
+    (hnodup : (defs.map (·.name)).Nodup)
+    (hargs : ∀ a ∈ args, wellLexedB a.value = true)
+    (hdefs : ∀ d ∈ defs, ∀ dv, d.default = some dv → wellLexedB dv = true)
+    (h : argumentMap op.vars (some defs) args vars = .ok m) :
+    ∀ d ∈ defs, argValueSpec op.vars args vars d = (m.lookup d.name).map some := by
+  have hsup : DefaultsSupplied op.vars vars := by
+    intro n d hf hd
+    have hmem : d ∈ op.vars := findVarDef_mem hf
+    have hn : d.var = n := by
+      have := List.find?_some hf
+      simpa using this
+    rw [← hn]
+    exact coerceLoop_defaults op.vars .nil vars hco d hmem hd
+  exact C15_precedence op.vars defs args vars m hnodup hargs hdefs hsup h
+
+/-- … and for a fragment whose variable nodes are linked to another operation's definitions -/
+theorem C15_precedence_linked_coerced (s : Schema) (op : OperationDef) (linked : List VarDef) (supplied vars : VarMap)
+    (defs : List ArgDef) (args : List Argument) (m : VarMap)
+    (hco : coerce s op supplied = .ok vars)
+    (hlinks : LinksAgree linked op.vars)
+    (hnodup : (defs.map (·.name)).Nodup)
+    (hargs : ∀ a ∈ args, wellLexedB a.value = true)
+    (hdefs : ∀ d ∈ defs, ∀ dv, d.default = some dv → wellLexedB dv = true)
+    (h : argumentMap linked (some defs) args vars = .ok m) :
+    ∀ d ∈ defs, argValueSpec op.vars args vars d = (m.lookup d.name).map some := by
+  have hsup : DefaultsSupplied op.vars vars := by
+    intro n d hf hd
+    have hmem : d ∈ op.vars := findVarDef_mem hf
+    have hn : d.var = n := by
+      have := List.find?_some hf
+      simpa using this
+    rw [← hn]
+    exact coerceLoop_defaults op.vars .nil vars hco d hmem hd
+  exact C15_precedence_linked linked op.vars defs args vars m hlinks hnodup hargs hdefs hsup h
+
+/- non-vacuity of `C15_precedence_coerced`, on the case a seeded change broke (C15-d1): the omitted
+   variable `$v: [Int] = 5` arrives in the coerced map as a LIST, and that list is what the argument gets -/
+example : ∃ m am t xs, coerce schema (opWith (listOf (named "Int")) (some (lit .int "5"))) .nil = .ok m ∧
+    argumentMap (opWith (listOf (named "Int")) (some (lit .int "5"))).vars (some [argDef "l" (listOf (named "Int"))])
+      [arg "l" (lit .variable "v")] m = .ok am ∧ am.lookup (str "l") = m.lookup (str "v")
+      ∧ m.lookup (str "v") = some (.slice t xs) :=
+  ⟨_, _, _, _, by rfl, by rfl, by rfl, by rfl⟩
 
 /-- Without `DefaultsSupplied` the statement fails: a variable written as the whole argument and
     missing from the map falls through to the ARGUMENT's default, skipping the variable's default
